@@ -899,6 +899,11 @@ class Interp:
     def ev_Lambda(self, n, env, ctx):
         return Closure(n, env, ctx)
 
+    def ev_NamedExpr(self, n, env, ctx):
+        v = self.ev(n.value, env, ctx)
+        self.assign(n.target, v, env, ctx, n)
+        return self.lookup_name(n.target.id, n.target, env, ctx) if isinstance(n.target, ast.Name) else v
+
     def _comp(self, n, env, ctx, kind):
         e = {"$outer": env}
         for k, v in env.items():
@@ -1274,7 +1279,8 @@ class Interp:
         """analyse a decorated function as an entry point: the caller's arguments go through the wrapper, in the current call form"""
         params = [p_ for p_ in func.params if p_ in bound]
         DECORATED_ENTRIES[func.qname] = len(params)
-        k = len(params) if CALL_FORM[0] is None else min(CALL_FORM[0], len(params))
+        npos = len([p_ for p_ in params if p_ not in func.kwonly])
+        k = npos if CALL_FORM[0] is None else min(CALL_FORM[0], npos)
         args = [bound[p_] for p_ in params[:k]]
         kws = params[k:][::-1] if CALL_FORM[1] else params[k:]
         kwargs = {p_: bound[p_] for p_ in kws}
